@@ -355,10 +355,10 @@ Proof.
     destruct (emf_fold i es None) as [r|].
     - destruct P as [_ [P2 P3]]. cbn [emf_idx_total]. rewrite P2.
       destruct (Z.eqb_spec idx i) as [E|N].
-      + subst i. rewrite Z.eqb_refl, P3. lia.
+      + rewrite <- E, Z.eqb_refl, P3, <- E. lia.
       + destruct (Z.eqb_spec i idx) as [E|_]; [exfalso; apply N; symmetry; exact E|]. lia.
     - destruct P as [_ P2]. cbn [emf_idx_total].
-      destruct (Z.eqb_spec idx i) as [E|N]; [subst i; rewrite P2|]; lia. }
+      destruct (Z.eqb_spec idx i) as [E|N]; [rewrite E, P2|]; lia. }
   rewrite H. destruct (emf_indices_spec es []) as [N [_ C]].
   destruct (in_dec Z.eq_dec idx (emf_indices es [])) as [I|NI].
   - apply em_pick_once; assumption.
@@ -391,3 +391,7 @@ Lemma ew_reward_example :
   emf_merge ew_rewards = [ew_reward 1 10 [(21, 95); (22, 4)] [(22, 1)]; ew_reward 2 3 [] []] /\
   emf_idx_total 1 21 1 (emf_merge ew_rewards) = 95 /\ emf_idx_total 1 22 1 (emf_merge ew_rewards) = 4.
 Proof. vm_compute. repeat split. Qed.
+
+Lemma em_reward_fn :
+  em_fn_of gen_merge_fns "TagStakePoolReward" = Some (MfAdd [("Reward", FScalar); ("DelegateRewards", FMap); ("DelegatePenalties", FMap)]).
+Proof. vm_compute. reflexivity. Qed.
